@@ -80,10 +80,10 @@ prop("C04",
 
 prop("C06",
      trusted_base=FORK_TB + ["hand model Model/FdShuffle.lean of the descriptor shuffle (prepareFds' scratch start, moves of the sync pipe and the exec descriptor, pass 1, pass 2) on an abstract descriptor table; tied to the regenerated forkAndExecInChild by C06_hand_model_tie (kernel-evaluated on 20 layouts) and by the driver on every exhaustively enumerated layout"],
-     assumptions=["launcher's side of the contract: every descriptor of the launching process outside the list is close-on-exec (Go opens everything so; the container init marks its stdio); pipe end and exec descriptor distinct",
+     assumptions=["launcher's side of the contract: every descriptor of the launching process at a number at or above the list length is close-on-exec (Go opens everything so; the container init marks its stdio); numbers below the list length may be inheritable (they are overwritten or closed); pipe end and exec descriptor distinct",
                   "kernel dup3/fcntl/close semantics as modelled"],
      not_covered="the unbounded theorem is about the hand model; its agreement with the regenerated code is kernel-evaluated on the layout family and compared exhaustively for all lists of length <= 3 (quick) / <= 4 (thorough) with all placements on every run, not proved for every length; descriptors created concurrently by other goroutines are C17",
-     level_text="Theorem C06_shuffle_exact for descriptor lists of ANY length and any launcher table: after the shuffle and exec, descriptor k is the file listed at position k (closed for a marker), nothing else is open, the pipe and the exec descriptor still refer to their files at numbers above the list (helper lemmas: invariants of pass 1 and pass 2 by induction over the list, case analysis of the two moves). Tie: the regenerated forkAndExecInChild run by Go-lite on an abstract descriptor table agrees with the hand model and with the property oracle on a family of 20 adversarial layouts (kernel-evaluated), on every exhaustively enumerated small layout (driver, every run), and real launches with engineered layouts where the probe reports fstat identity of every descriptor and the Runner is deep-compared and restarted; container runs with 0..4 listed descriptors report the same table; launchers that hold an inheritable descriptor at the number of a slot marked 'close'",
+     level_text="Theorem C06_shuffle_exact for descriptor lists of ANY length and any launcher table (close-on-exec at every number at or above the list length; below it the launcher may hold inheritable descriptors, e.g. its own stdio): after the shuffle and exec, descriptor k is the file listed at position k (closed for a marker), nothing else is open, the pipe and the exec descriptor still refer to their files at numbers above the list (helper lemmas: invariants of pass 1 and pass 2 by induction over the list, case analysis of the two moves). Tie: the regenerated forkAndExecInChild run by Go-lite on an abstract descriptor table agrees with the hand model and with the property oracle on a family of 20 adversarial layouts plus 6 layouts with inheritable launcher descriptors at marked and listed slots (kernel-evaluated), on every exhaustively enumerated small layout (driver, every run), and real launches with engineered layouts where the probe reports fstat identity of every descriptor and the Runner is deep-compared and restarted; container runs with 0..4 listed descriptors report the same table; launchers that hold an inheritable descriptor at the number of a slot marked 'close'",
      level_note="Trusted: Lean kernel; hand model tied to the regenerated code by kernel evaluation and exhaustive small-scope comparison; abstract descriptor table (kernel dup3/fcntl/close) assumed",
      technique="Lean 4 proof by induction over the descriptor list (pass invariants) + decide +kernel on regenerated Go-lite code + exhaustive bounded enumeration + real launches")
 
@@ -92,7 +92,7 @@ prop("C07",
      assumptions=["sethostname/setdomainname/unshare(CLONE_NEWCGROUP) failures are deliberately ignored by the launcher (documented 'not critical'); listed explicitly in Model/ForkChecked.ignorable",
                   "ptrace+seccomp configuration: Start returns at the stop, later failures surface as 'child process exit before execve' (step not named): recorded as an observation of the early-return design, see DESIGN.md"],
      not_covered="faults the kernel cannot be made to produce on demand are covered by the model-level injection only",
-     level_text="Whole-AST theorem that every raw syscall of the regenerated child is followed by its error check (or is a listed ignorable step) and that the exit helpers write the error then exit; kernel-evaluated fault injection at every step of a rich option set; per-run fault injection at every step of thousands of option sets in the driver; theorems for all inputs on the parent model (kill+wait4 before every failing return, both socket ends closed, ack only after a successful callback, returned error is the child's report); real failures induced at each reachable step, also with the error channel 0..2 numbers above the scratch start of the descriptor shuffle and with an uncollected other child of the caller",
+     level_text="Whole-AST theorem that every raw syscall of the regenerated child is followed by its error check (or is a listed ignorable step) and that the exit helpers write the error then exit; kernel-evaluated fault injection at every step of a rich option set; per-run fault injection at every step of thousands of option sets in the driver; theorems for all inputs on the parent model (kill+wait4 before every failing return, both socket ends closed, ack only after a successful callback, returned error is the child's report); both wait4 calls of the regenerated handleChildFailed name the failed child's pid; real failures induced at each reachable step, also with the error channel 1..3 numbers above the scratch start of the descriptor shuffle and with an uncollected other child of the caller",
      level_note="Trusted: Lean kernel; translator + Go-lite + abstract kernel; parent side is a hand model tied by real fault injection",
      technique="Lean 4: syntactic theorem on regenerated AST + decide +kernel fault injection + proofs on parent model; fault-injection differential")
 
@@ -126,7 +126,7 @@ prop("C11",
      assumptions=["real-time bounds (returns within 3 s) are observed by the harness, not proved; scheduler behaviour is a model parameter (all interleavings of the modelled steps)",
                   "SIGKILL of a process group terminates every member, stopped or not (kernel law)"],
      not_covered="namespace runner: Start returns only after the exec, so the group exists when the canceller can fire; covered by real runs only",
-     level_text="Exhaustive kernel-evaluated exploration of the cancellation race: under every interleaving the run ends, after the canceller's kill the program is never running again, Normal is only reported for a program that ended on its own before that kill; witness for the pinned tree's lost cancellation; tie of the repeated group kill to the regenerated trace loop; container cancellation terminates in sync in every interleaving; real cancellation sweeps in all three runners incl. the pinned early-cancel race, cancelled container runs of programs whose descendants left the process group followed by a run that must be served, Destroy during in-flight calls; every run of the sweep has its own watchdog while other children of the host process are alive",
+     level_text="Exhaustive kernel-evaluated exploration of the cancellation race: under every interleaving the run ends, after the canceller's kill the program is never running again, Normal is only reported for a program that ended on its own before that kill; witness for the pinned tree's lost cancellation; tie of the repeated group kill to the regenerated trace loop; every wait4 of the tracer's and the namespace runner's clean-up selects the run's own pid or process group (regenerated fact); container cancellation terminates in sync in every interleaving; real cancellation sweeps in all three runners incl. the pinned early-cancel race, cancelled container runs of programs whose descendants left the process group followed by a run that must be served, Destroy during in-flight calls; every run of the sweep has its own watchdog while other children of the host process are alive",
      level_note="PARTIAL: theorem about code composed with assumed kernel/scheduler model; real-time promptness observed only. Trusted: Lean kernel, hand LTS, translator + Go-lite",
      technique="Lean 4 exhaustive LTS exploration (decide +kernel) + regenerated-code tie + real cancellation sweeps")
 
@@ -135,7 +135,7 @@ prop("C16",
                    "extracted facts (Gen.C16): every select statement of the container package with its communication clauses, the SysProcAttr of the init, the ptrace options"],
      assumptions=["kernel laws: PDEATHSIG is delivered when the creating thread's process dies; EOF is delivered to a blocked or later recvmsg; exit of a pid-namespace init kills the namespace; tracer exit kills PTRACE_O_EXITKILL tracees; PR_SET_PDEATHSIG set by the traced child covers the time before its first stop"],
      not_covered="blocking channel operations of the container outside select statements (waitPid/waitAll hand-offs to the reaper) are bounded by the preceding kill(-1); covered by the crash-point runs",
-     level_text="Kernel-evaluated theorem: from every reachable state of every operation, once the host is gone every continuation of the container ends in exit (by EOF alone); extracted-code theorems: every blocking select of the container has the done alternative, Pdeathsig=SIGKILL, PTRACE_O_EXITKILL; for every option set with ptrace the child asks for PR_SET_PDEATHSIG (and checks its parent) before PTRACE_TRACEME (theorem on the fork skeleton, which C04 ties to the regenerated child); a real controller process is SIGKILLed at each announced protocol point, shortly after the synchronisation of a traced launch, at random instants, inside the synchronisation callback of a ptrace and of a namespace launch, and with the tracer used directly on a launcher without a seccomp filter; the pid namespace / process group must be empty within the bound (open known finding: a child created with clone(CLONE_UNTRACED))",
+     level_text="Kernel-evaluated theorem: from every reachable state of every operation, once the host is gone every continuation of the container ends in exit (by EOF alone); extracted-code theorems: every blocking select of the container has the done alternative, Pdeathsig=SIGKILL, PTRACE_O_EXITKILL; for every option set the launched child first closes its copy of the launcher's end of the synchronisation socket (so a dead launcher is an end-of-file for every later blocking read; theorem on the skeleton + kernel-evaluated on the regenerated child); for every option set with ptrace the child asks for PR_SET_PDEATHSIG (and checks its parent) before PTRACE_TRACEME (theorem on the fork skeleton, which C04 ties to the regenerated child); a real controller process is SIGKILLed at each announced protocol point, shortly after the synchronisation of a traced launch, at random instants, inside the synchronisation callback of a ptrace and of a namespace launch, and with the tracer used directly on a launcher without a seccomp filter; the pid namespace / process group must be empty within the bound (open known finding: a child created with clone(CLONE_UNTRACED))",
      level_note="PARTIAL: kernel delivery laws assumed. Trusted: Lean kernel, hand protocol model (tied by C10's trace inclusion), extractor",
      technique="Lean 4 exhaustive crash-point exploration (decide +kernel) + extracted-code facts + crash-point enumeration against real processes")
 
@@ -179,7 +179,7 @@ prop("C13",
                   "'every writable mount' = the tmpfs mounts (default table); a caller-supplied read-write bind mount is host data and is not cleaned by Reset (documented reading)",
                   "kernel seal semantics as tabulated"],
      not_covered="kernel unlink/seal implementation",
-     level_text="Theorem for every mount table on the reset model (exactly the tmpfs targets are cleaned, in order, success only without failure) tied to the regenerated handleReset by kernel evaluation (filter, path join, order, error reply at first failure); DupToMemfd's create-copy-seal-rewind order with close on every failing path on regenerated code; every modifying operation denied under the compiled seal set; hostile trees (incl. 5000 entries directly under a mount root) + host-side inspection of the mounts, DupToMemfd fed by readers using every licence of the io.Reader contract and by files read from offsets / pseudo-files whose size says nothing, sealed memfd attacked through the descriptor, /proc/self/fd and from the exec'd program",
+     level_text="Theorem for every mount table on the reset model (exactly the tmpfs targets are cleaned, in order, success only without failure) tied to the regenerated handleReset by kernel evaluation (filter, path join, order, error reply at first failure); the regenerated removeContents hands every entry of the directory to RemoveAll (hidden names, 300 entries, failing removals; one unbounded directory read); DupToMemfd's create-copy-seal-rewind order with close on every failing path on regenerated code; every modifying operation denied under the compiled seal set; hostile trees (incl. 5000 entries directly under a mount root) + host-side inspection of the mounts, DupToMemfd fed by readers using every licence of the io.Reader contract and by files read from offsets / pseudo-files whose size says nothing, sealed memfd attacked through the descriptor, /proc/self/fd and from the exec'd program",
      level_note="PARTIAL: proof about the model/regenerated glue + differential; kernel unlink/seal semantics assumed",
      technique="Lean 4 proof on the reset model + decide +kernel on regenerated Go-lite code + hostile-tree differential")
 
@@ -192,7 +192,7 @@ prop("C20",
                   "usage_usec*1000 < 2^64 (584 years of CPU time) — the uint64 result wraps beyond",
                   "the v2 hierarchy of this machine has no controllers delegated: v2 limit files are covered by crafted directories (hook VerifNewV2At), not by the kernel"],
      not_covered="kernel cgroup accounting itself; v2 limit enforcement by the kernel (no controllers on this machine's cgroup2)",
-     level_text="Theorems for every history of mkdirs (arbitrarily interleaved creators), Destroys and external changes: every directory a Destroy removes was made by that very handle, never a pre-existing one; live handles never share a created directory; a handle on an existing group removes nothing; every interleaving of two concurrent creators has exactly one creator with the atomic mkdir (and a double-owner witness for the pinned stat-then-MkdirAll); any CPU value returned is 1000 x a usage_usec field; regenerated Destroy/EnsureDirExists/AddProc facts by kernel evaluation; differential on real v1 and v2 hierarchies with a ledger of every limit written, re-checked after every later operation",
+     level_text="Theorems for every history of mkdirs (arbitrarily interleaved creators), Destroys and external changes: every directory a Destroy removes was made by that very handle, never a pre-existing one; live handles never share a created directory; a handle on an existing group removes nothing; every interleaving of two concurrent creators has exactly one creator with the atomic mkdir (and a double-owner witness for the pinned stat-then-MkdirAll); any CPU value returned is 1000 x a usage_usec field; regenerated Destroy/EnsureDirExists/AddProc facts by kernel evaluation; a cpuset that is set is never overwritten when a group is opened again (theorem on the hand model for every tree; the regenerated initCpuset/copyCgroupPropertyFromParent compute that model on seven trees); differential on real v1 and v2 hierarchies with a ledger of every limit written, re-checked after every later operation",
      level_note="Trusted: Lean kernel; hand model tied by differential on the real hierarchies; kernel mkdir/rmdir atomicity assumed. Three defects repaired (fix: commits)",
      technique="Lean 4 proofs by induction over operation histories + exhaustive interleaving exploration (decide) + Go-lite on regenerated code + differential on real cgroup hierarchies",
      timeout={"quick": 900, "thorough": 3600})
@@ -220,7 +220,7 @@ prop("C03",
                   "programs whose processes run one after the other (the parent waits/joins): program order is the order of events; concurrent siblings are exercised by C17",
                   "the launcher stops itself before loading the filter (C04/C07 order theorems) so the tracer is attached before the first filtered syscall"],
      not_covered="x32/i386 syscall entry; a tracee killed by an outside SIGKILL while stopped (ESRCH paths are kernel-evaluated on regenerated code only)",
-     level_text="Theorems for every program, process tree, option set and decision function: every call that took effect was allowed by the filter or by the handler in a traced process; a killed call (handler or filter) ends the run as Disallowed Syscall, does not execute and nothing after it happens; a banned call does not execute and the program sees -BanRet; an allowed call executes; with the regenerated option word every descendant is traced; after a ban the kernel skips the call for every register content, after allow the registers are untouched; the regenerated handleTrap computes the hand model (kernel-evaluated incl. vanished tracee); differential on real traced runs, incl. multi-threaded programs in which one thread makes a filter-killed call, and bans under five configured error values",
+     level_text="Theorems for every program, process tree, option set and decision function: every call that took effect was allowed by the filter or by the handler in a traced process; a killed call (handler or filter) ends the run as Disallowed Syscall, does not execute and nothing after it happens; a banned call does not execute and the program sees -BanRet; an allowed call executes; with the regenerated option word every descendant is traced; the library's kill action is compiled to KILL_PROCESS, not the thread-only kill (regenerated ToSeccompAction); after a ban the kernel skips the call for every register content, after allow the registers are untouched; the regenerated handleTrap computes the hand model (kernel-evaluated incl. vanished tracee); differential on real traced runs, incl. multi-threaded programs in which one thread makes a filter-killed call, and bans under five configured error values",
      level_note="Trusted: Lean kernel; kernel ptrace/seccomp rules are modelled (assumed) and sampled by the real runs; hand model tied to regenerated code by kernel evaluation on a finite register sample. One defect repaired (fix: commit)",
      technique="Lean 4 proofs by induction over programs + decide +kernel on regenerated Go-lite code + differential on real ptrace runs",
      timeout={"quick": 900, "thorough": 3600})
